@@ -11,7 +11,7 @@ from hypothesis import strategies as st
 ID = 'C16'
 RULE = ('(a) exhaustive: every table of 1..3 (quick) / 1..4 (thorough) rows over the 8 possible rows, in presentation '
         'variants (geo column/index, int/str IDs, int/float/bool and pandas-nullable Int64/boolean/Float64 cells, extra column, value columns in any order, non-default row labels when geo is a column), each accepted table queried with '
-        'every non-empty ordered subset of its geos x indices in {False, True} and with None; every single malformed '
+        'every non-empty ordered subset of its geos x indices in {False, True} and with None (for half of the tables through ONE list object edited in place between consecutive queries); every single malformed '
         'mutation (column dropped, geo absent, duplicate ID incl. 1 vs "1", cell in {2,-1,0.5,NaN,None,"1",<NA> in a nullable column}, duplicated '
         'value column) of a legal table; (b) Hypothesis: tables up to 10 rows with drawn subsets and mutations. '
         'Non-trivial = accepted table with >=2 distinct row types and >=3 rows (so proper reordered subsets exist) or a '
@@ -221,13 +221,22 @@ def run(spec):
         subsets += [list(p) for p in itertools.permutations(ids, m)]
     else:
       subsets = [None] + [list(s) for s in spec['subsets']]
-    for sub in subsets:
-      for indices in ((False, True) if sub is not None else (False,)):
-        L = ids if sub is None else sub
+    queries = [(sub, indices) for sub in subsets for indices in ((False, True) if sub is not None else (False,))]
+    reuse = (len(rows) + sum(sum(r[1:]) for r in rows)) % 2 == 1
+    if reuse:
+      # the caller keeps ONE list object and edits it in place between consecutive queries with the same flag
+      queries.sort(key=lambda q: (q[0] is None, q[1]))
+      cls.append('list-object-reused')
+    work = []
+    for sub, indices in queries:
+        if reuse and sub is not None:
+          work[:] = sub
+          sub = work
+        L = ids if sub is None else list(sub)
         try:
           a = obj.get_eligible_assignments(sub, indices=indices) if sub is not None else obj.get_eligible_assignments()
         except Exception as e:  # pylint: disable=broad-except
-          viol.append((core.crash_kind('C16', e), {'rows': rows, 'subset': sub, 'indices': indices, 'exc': str(e)[:150]}))
+          viol.append((core.crash_kind('C16', e), {'rows': rows, 'subset': None if sub is None else list(sub), 'indices': indices, 'exc': str(e)[:150]}))
           continue
         ref = (lambda i, g: i) if indices else (lambda i, g: g)
         want = {k: set() for k in SEVEN}
@@ -242,7 +251,7 @@ def run(spec):
           if f[2]:
             wx.add(ref(i, g))
         got_classes = {k: set(getattr(a, k)) for k in SEVEN}
-        det = {'rows': rows, 'subset': sub, 'indices': indices}
+        det = {'rows': rows, 'subset': None if sub is None else list(sub), 'indices': indices, 'list_object_reused': reuse}
         union = set().union(*got_classes.values())
         total = sum(len(v) for v in got_classes.values())
         if total != len(union):
